@@ -127,6 +127,11 @@ class AProg(k2.Prog):
         k2.Prog.__init__(self, pid, kind, name)
         self.schedule = []
 
+    def no_runtime(self):
+        """A task-spawning program with a single branch never spawns (every step has one active branch and is awaited in
+        place, exactly as in the plain async macro): it must run on any executor, also outside a tokio runtime."""
+        return self.is_spawn() and len(self.branches) == 1
+
     def operand_src(self, op, k):
         g = getattr(op, "agate", 0)
         g = g + self.base if g else 0
@@ -201,7 +206,7 @@ class AProg(k2.Prog):
     def rust_fn(self):
         sched = [[g + self.base for g in batch] for batch in self.schedule]
         inv = "%s! { %s }" % (self.name, self.macro_input())
-        if self.is_spawn():
+        if self.is_spawn() and not self.no_runtime():
             run = "drive_tokio(move || %s, vec![%s])" % (inv, ", ".join("vec![%s]" % ", ".join(map(str, b)) for b in sched))
         else:
             run = "drive(%s, &[%s])" % (inv, ", ".join("&[%s]" % ", ".join(map(str, b)) for b in sched))
@@ -440,7 +445,7 @@ def body(ctx, kinds=("a1t0s0", "a1t1s0", "a1t0s1", "a1t1s1"), n=None, profiles=N
     ctx.out.coverage["async_model_runs_compared"] = ctx.out.coverage.get("async_model_runs_compared", 0) + len(cov)
     # the poll-level model (Async.lean / AsyncSpec.lean): its predicted events per poll under this gate schedule, for the
     # kinds that run on the deterministic executor
-    det = [(p, r) for p, r in zip(progs, reals) if (not p.is_spawn()) or nothing_fails(p)]
+    det = [(p, r) for p, r in zip(progs, reals) if (not p.is_spawn()) or p.no_runtime() or nothing_fails(p)]
     apoll = k1.run_driver(["APOLL\t%s\t%s\t%s\t%s\t%s" % (p.pid, p.kind, r.structure, p.world_gated(),
                            "|".join(",".join(str(g) for g in b) for b in p.schedule) if p.schedule else "-") for p, r in det]) if det else []
     predicted = {p.pid: (o.split("\t", 1)[1] if "\t" in o else o) for (p, r), o in zip(det, apoll)}
@@ -467,7 +472,7 @@ def body(ctx, kinds=("a1t0s0", "a1t1s0", "a1t0s1", "a1t1s1"), n=None, profiles=N
     for p in progs:
         rl = got.get(p.pid, "MISSING\t")
         problems = judge(p, rl, spec[p.pid])
-        if p.pid in predicted and p.is_spawn():
+        if p.pid in predicted and p.is_spawn() and not p.no_runtime():
             d = batch_diff(p, rl, predicted[p.pid])
             ctx.out.coverage["batch_level_compared_tokio"] = ctx.out.coverage.get("batch_level_compared_tokio", 0) + 1
             if d:
